@@ -166,6 +166,9 @@ func (e *Engine) callFunction(s *State, f *Frame, x *ssa.Call, callee *ssa.Funct
 				k++
 			}
 			f.callResults[fmt.Sprintf("%s#%d", funcKey(callee), k)] = r
+			for ai, av := range args {
+				f.callResults[fmt.Sprintf("%s#%d.arg%d", funcKey(callee), k, ai)] = av
+			}
 			for gname, gv := range e.lastGhosts {
 				f.callResults[fmt.Sprintf("%s#%d.%s", funcKey(callee), k, gname)] = gv
 			}
